@@ -7,3 +7,4 @@
    Pypi         containsPrereleaseMarkers, constraintsIncludePrerelease
    Texts        the printers on the intervals of group (normalize ..): the texts of contains_generic *)
 From Verif.Tie.Vers Require Common Valid Constraints Code Printers Pypi Texts.
+From Verif.Tie.Vers Require CoreAlternating CoreGroup.
